@@ -844,7 +844,10 @@ func (o *operation) drainBody(body io.ReadCloser) {
 	_, _ = io.CopyBuffer(io.Discard, body, b)
 }
 
-var errUnaryRequestHasMultipleMessages = errors.New("request has more than one message, but the method takes exactly one")
+var (
+	errUnaryRequestHasMultipleMessages  = errors.New("request has more than one message, but the method takes exactly one")
+	errUnaryResponseHasMultipleMessages = errors.New("response has more than one message, but the method returns exactly one")
+)
 
 // envelopingReader will translate between envelope styles as data is read.
 // It does not do any decompressing or deserializing of data.
@@ -1509,6 +1512,7 @@ type envelopingWriter struct {
 	mustReleaseCurrent  bool
 	currentIsTrailer    bool
 	trailerIsCompressed bool
+	wroteMessage        bool
 }
 
 func (w *envelopingWriter) Write(data []byte) (n int, err error) {
@@ -1627,7 +1631,13 @@ func (w *envelopingWriter) handleEnvelopeWritten() error {
 			w.err = err
 			return err
 		}
+	} else if w.wroteMessage && !w.rw.op.methodConf.descriptor.IsStreamingServer() {
+		// Without envelopes the body sent to the client is exactly one message;
+		// appending another one would corrupt it.
+		w.rw.reportError(errUnaryResponseHasMultipleMessages)
+		return errUnaryResponseHasMultipleMessages
 	}
+	w.wroteMessage = true
 	w.current = w.w
 	w.remainingBytes = int(env.length)
 	return nil
@@ -1777,6 +1787,7 @@ type transformingWriter struct {
 	expectingBytes  int
 	writingEnvelope bool
 	latestEnvelope  envelope
+	wroteMessage    bool
 }
 
 func (w *transformingWriter) Write(data []byte) (n int, err error) {
@@ -1896,6 +1907,13 @@ func (w *transformingWriter) flushMessage() error {
 		return nil
 	}
 
+	if w.wroteMessage && w.rw.op.serverEnveloper != nil && w.rw.op.clientEnveloper == nil &&
+		!w.rw.op.methodConf.descriptor.IsStreamingServer() {
+		// Without envelopes the body sent to the client is exactly one message;
+		// appending another one would corrupt it.
+		return errUnaryResponseHasMultipleMessages
+	}
+	w.wroteMessage = true
 	// We've finished reading the message, so we can manually set the stage
 	w.msg.markReady()
 	if err := w.msg.advanceToStage(w.rw.op, stageSend); err != nil {
